@@ -291,12 +291,23 @@ func checkSplit(c SplitCase) error {
 	return nil
 }
 
+// longRun occasionally appends a run of 255..600 copies of one short piece (a
+// separator, a blank, an empty field): thresholds on the NUMBER of pieces.
+func longRun(t *rapid.T) string {
+	if rapid.IntRange(0, 24).Draw(t, "longrun") != 0 {
+		return ""
+	}
+	piece := rapid.SampledFrom([]string{",", ";", " ,", ", ", "a,", ",,", " "}).Draw(t, "runpiece")
+	n := rapid.SampledFrom([]int{255, 256, 257, 300, 600}).Draw(t, "runlen")
+	return strings.Repeat(piece, n) + rapid.SampledFrom([]string{"", "z", " "}).Draw(t, "runtail")
+}
+
 var splitProp = vp.Register(vp.Prop[SplitCase]{
 	Kind: "c13.split", Base: 60000,
 	Gen: func(t *rapid.T) SplitCase {
 		return SplitCase{
 			S: strings.Join(rapid.SliceOfN(rapid.SampledFrom([]string{",", ";", " ", "\t", "\n", "\u00a0", "\u2003", "\u0085", "\u200b", "\u2028", "\u3000", "\ufeff", "\u1680",
-				"a", "b", "ab", "世", "\v", "\f", "\r", "\x00", "\xff", "\xc2", "\xe2\x80", ",", " ", " "}), 0, 24).Draw(t, "s"), ""),
+				"a", "b", "ab", "世", "\v", "\f", "\r", "\x00", "\xff", "\xc2", "\xe2\x80", ",", " ", " "}), 0, 24).Draw(t, "s"), "") + longRun(t),
 			Sep: rapid.SampledFrom([]string{",", ";", " ", "", ", ", "ab", "\n", "\u00a0", "a", ",,", "世", "\xff", "\x00", " ,", "\u3000"}).Draw(t, "sep"),
 		}
 	},
